@@ -369,8 +369,8 @@ def generate(seed, run, tier="quick", overrides=None, template_ids=None):
             continue
         if r < p_bad + p_loss + p_reg:
             if rng.random() < 0.5:
-                kw = {rng.choice(["occ", "virt", "general", "occ_a", "virt_b"]):
-                      rng.choice([1, 2, 4, 7, 9])}
+                kw = {rng.choice(["occ", "virt", "general", "occ_a", "occ_b", "virt_a",
+                                  "virt_b"]): rng.choice([1, 2, 4, 7, 9])}
                 steps.append({"op": "reg.generic", "kw": kw})
             else:
                 names = [rng.choice("ijklmnoabcdefghpq") +
